@@ -95,6 +95,18 @@ Proof.
   destruct (k <? 0) eqn:E; lia.
 Qed.
 
+Lemma want_mul_bound {B} (a : audio B) s n :
+  wfa a -> binv a s -> 0 <= want a s n * abps a <= zlen (abytes a) - pos s.
+Proof.
+  intros Hw Hi.
+  pose proof (remaining_mul a s Hw Hi) as HR.
+  pose proof (want_range a s n Hw Hi) as HW.
+  destruct Hw as (Hb & _ & _).
+  rewrite <- HR. split.
+  - apply Z.mul_nonneg_nonneg; lia.
+  - apply Z.mul_le_mono_nonneg_r; lia.
+Qed.
+
 (** The slice that [Read n] takes. *)
 Definition read_offset {B} (a : audio B) (s : bstate) (n : option Z) : option Z :=
   match n with
@@ -131,10 +143,9 @@ Lemma read_slice_len {B} (a : audio B) s n :
   zlen (zslice (abytes a) (pos s) (pos s + want a s n * abps a)) = want a s n * abps a.
 Proof.
   intros Hw Hi.
-  pose proof (remaining_mul a s Hw Hi) as HR.
-  pose proof (want_range a s n Hw Hi) as HW.
-  destruct Hw as (Hb & _ & _). destruct Hi as (Hr & _).
-  rewrite zlen_zslice by lia. nia.
+  pose proof (want_mul_bound a s n Hw Hi) as HWB.
+  destruct Hi as (Hr & _).
+  rewrite zlen_zslice by lia. lia.
 Qed.
 
 (* ------------------------------------------------------------------ *)
@@ -265,23 +276,21 @@ Qed.
 Theorem C11_inv_step : forall B (a : audio B) s o, wfa a -> binv a s -> binv a (fst (bstep a s o)).
 Proof.
   intros B a s o Hw Hi.
-  destruct o as [ | | | n | | | | p | t | ms]; cbn [bstep fst];
-    try exact Hi; try apply binv_zero.
-  - (* Read *)
+  destruct o as [ | | | n | | | | p | t | ms].
+  4: { (* Read *)
     destruct (is_open s) eqn:Ho.
-    + destruct (C11_read_open B a s n Hw Hi Ho) as [H0 Hpos].
+    - destruct (C11_read_open B a s n Hw Hi Ho) as [H0 Hpos].
       pose proof (want_range a s n Hw Hi) as HW.
-      pose proof (remaining_mul a s Hw Hi) as HR.
+      pose proof (want_mul_bound a s n Hw Hi) as HWB.
       destruct (Z.eq_dec (want a s n) 0) as [Hz|Hnz].
-      * pose proof (H0 Hz) as Hs. cbn [bstep] in Hs. rewrite Ho in Hs. cbn [negb] in Hs.
-        rewrite Hs. exact Hi.
-      * assert (Hp : 0 < want a s n) by lia.
-        destruct (Hpos Hp) as [Hs _]. cbn [bstep] in Hs. rewrite Ho in Hs. cbn [negb] in Hs.
-        rewrite Hs. cbn [fst].
+      + rewrite (H0 Hz). exact Hi.
+      + assert (Hp : 0 < want a s n) by lia.
+        destruct (Hpos Hp) as [Hs _]. rewrite Hs. cbn [fst].
         destruct Hw as (Hb & _ & Hd). destruct Hi as (Hr & Hdp).
-        split; cbn [pos]; [nia|].
+        split; cbn [pos]; [lia|].
         apply Z.divide_add_r; [exact Hdp | apply Z.divide_factor_r].
-    + cbn [negb fst]. exact Hi.
+    - rewrite (C11_read_closed B a s n Ho). exact Hi. }
+  all: cbn [bstep fst]; try exact Hi; try apply binv_zero.
   - apply set_position_inv; assumption.
   - destruct (py_int _); [apply set_position_inv; assumption | exact Hi].
   - destruct (py_int _); [apply set_position_inv; assumption | exact Hi].
@@ -420,27 +429,26 @@ Qed.
 Theorem C11_file_inv : forall B restart (a : audio B) s o, wfa a -> finv a s -> finv a (fst (fstep restart a s o)).
 Proof.
   intros B restart a s o Hw Hi.
-  destruct o as [ | | | n | | | | p | t | ms]; cbn [fstep fst]; try exact Hi.
-  - (* Open *)
-    destruct (fopen s); cbn [fst]; [exact Hi|].
-    destruct restart; [|exact Hi].
-    split; cbn [fpos]; [pose proof (zlen_nonneg (abytes a)); lia | apply Z.divide_0_r].
-  - (* Read *)
+  destruct o as [ | | | n | | | | p | t | ms].
+  4: { (* Read *)
     destruct (fopen s) eqn:Ho.
-    + destruct (file_read_w restart a s n Hw Hi Ho) as [H0 Hpos].
+    - destruct (file_read_w restart a s n Hw Hi Ho) as [H0 Hpos].
       assert (Hbi : binv a (f2b s)) by exact Hi.
       pose proof (want_range a (f2b s) n Hw Hbi) as HW.
-      pose proof (remaining_mul a (f2b s) Hw Hbi) as HR. cbn [f2b pos] in HR.
+      pose proof (want_mul_bound a (f2b s) n Hw Hbi) as HWB. cbn [f2b pos] in HWB.
       destruct (Z.eq_dec (want a (f2b s) n) 0) as [Hz|Hnz].
-      * pose proof (H0 Hz) as Hs. cbn [fstep] in Hs. rewrite Ho in Hs. cbn [negb] in Hs.
-        rewrite Hs. exact Hi.
-      * assert (Hp : 0 < want a (f2b s) n) by lia.
-        pose proof (Hpos Hp) as Hs. cbn [fstep] in Hs. rewrite Ho in Hs. cbn [negb] in Hs.
-        rewrite Hs. cbn [fst].
+      + rewrite (H0 Hz). exact Hi.
+      + assert (Hp : 0 < want a (f2b s) n) by lia.
+        rewrite (Hpos Hp). cbn [fst].
         destruct Hw as (Hb & _ & Hd). destruct Hi as (Hr & Hdp).
-        split; cbn [fpos]; [nia|].
+        split; cbn [fpos]; [lia|].
         apply Z.divide_add_r; [exact Hdp | apply Z.divide_factor_r].
-    + cbn [negb fst]. exact Hi.
+    - cbn [fstep]. rewrite Ho. exact Hi. }
+  all: cbn [fstep fst]; try exact Hi.
+  (* Open *)
+  destruct (fopen s); cbn [fst]; [exact Hi|].
+  destruct restart; [|exact Hi].
+  split; cbn [fpos]; [pose proof (zlen_nonneg (abytes a)); lia | apply Z.divide_0_r].
 Qed.
 
 Theorem C11_file_closed : forall B restart (a : audio B) s n, fopen s = false -> fstep restart a s (Read n) = (s, OErr AudioIOError).
@@ -577,7 +585,34 @@ Example a6_kinds :
   = [OData [1; 2; 3; 4]; OData [5; 6]; ONone].
 Proof. vm_compute. split; reflexivity. Qed.
 
+(* The hypotheses of the main theorems are jointly satisfiable: instantiate them. *)
+Example a6_binv_2 : binv a6 (mkB 2 true).
+Proof. unfold binv; cbn. split; [lia | exists 1; reflexivity]. Qed.
+
+Example a6_finv_2 : finv a6 (mkF 2 true).
+Proof. exact a6_binv_2. Qed.
+
+Example a6_inst_inv :=
+  C11_inv Z a6 [Open; Read (Some 2); GetPos; SetPos (-1); Read None; Read (Some 1); Close; Read (Some 1)] a6_wfa.
+Example a6_inst_read_open := C11_read_open Z a6 (mkB 2 true) (Some 1) a6_wfa a6_binv_2 eq_refl.
+Example a6_inst_reads :=
+  C11_reads_contiguous Z a6 (mkB 2 true) [Some 1; Some 0; None] a6_wfa a6_binv_2 eq_refl.
+Example a6_inst_setpos := C11_setpos Z a6 (mkB 2 true) (-1) a6_wfa.
+Example a6_inst_setpos_s :=
+  C11_setpos_s Z a6 (mkB 0 true) (of_me 1 (-1)) 2 (proj1 a6_setpos_s).
+Example a6_inst_setpos_ms :=
+  C11_setpos_ms Z a6 (mkB 0 true) 250 1 (proj1 a6_setpos_ms).
+Example a6_inst_file_read := C11_file_read Z true a6 (mkF 2 true) (Some 1) a6_wfa a6_finv_2 eq_refl.
+Example a6_inst_kinds := C11_kinds_agree Z a6 [Some 2; None; Some 1] a6_wfa.
+
 (* ------------------------------------------------------------------ *)
+(** Assumptions.  NOTE: the model constant [bstep] itself is not closed: its
+    [SetPosS]/[SetPosMs] branches call [fmul]/[fdiv]/[of_Z] (Flocq [Bmult], [Bdiv],
+    [binary_normalize]), whose definitions embed proofs over the standard-library
+    Reals.  Every theorem whose proof term mentions [bstep] therefore lists exactly
+    the four Reals axioms that [Print Assumptions bstep] lists, and nothing else;
+    the theorems about [fstep] / [set_position] only are closed. *)
+Print Assumptions bstep.
 
 Print Assumptions C11_inv_step.
 Print Assumptions C11_inv.
